@@ -115,3 +115,66 @@ Definition hint_case_ok (c : hint_case) : bool :=
 
 Definition hint_mismatches (cs : list hint_case) : list N :=
   map hc_id (filter (fun c => negb (hint_case_ok c)) cs).
+
+(* ---- C09 / C10: AST rewriting correspondence --------------------------- *)
+From Verif Require Import Opt.
+
+Definition mset_eqb (a b : list matcher) : bool :=
+  Nat.eqb (List.length a) (List.length b) && subsetb matcher_eqb a b && subsetb matcher_eqb b a.
+
+Definition optZ_eqb (a b : option Z) : bool :=
+  match a, b with Some x, Some y => Z.eqb x y | None, None => true | _, _ => false end.
+
+Definition vsel_eqb (a b : vsel) : bool :=
+  mset_eqb (vms a) (vms b) && Z.eqb (vorig a) (vorig b) && Z.eqb (voff a) (voff b) && optZ_eqb (vat a) (vat b)
+  && match vflt a, vflt b with Some x, Some y => mset_eqb x y | None, None => true | _, _ => false end.
+
+(* equality of expressions up to the order of matchers within a selector *)
+Fixpoint expr_eqb (a b : expr) {struct a} : bool :=
+  match a, b with
+  | ENum x, ENum y => Z.eqb x y
+  | EStr, EStr => true
+  | EVec v, EVec v' => vsel_eqb v v'
+  | EMat v r, EMat v' r' => vsel_eqb v v' && Z.eqb r r'
+  | ESubq x, ESubq y => expr_eqb x y
+  | ECall f xs, ECall g ys =>
+      String.eqb f g &&
+      (fix go (l1 l2 : list expr) : bool :=
+         match l1, l2 with
+         | [], [] => true
+         | x :: r1, y :: r2 => expr_eqb x y && go r1 r2
+         | _, _ => false
+         end) xs ys
+  | EAgg op w g p x, EAgg op' w' g' p' y =>
+      String.eqb op op' && Bool.eqb w w' && list_eqb N.eqb g g' &&
+      match p, p' with Some q, Some q' => expr_eqb q q' | None, None => true | _, _ => false end && expr_eqb x y
+  | EBin op b c on ml incl l r, EBin op' b' c' on' ml' incl' l' r' =>
+      String.eqb op op' && Bool.eqb b b' && card_eqb c c' && Bool.eqb on on' && list_eqb N.eqb ml ml' &&
+      list_eqb N.eqb incl incl' && expr_eqb l l' && expr_eqb r r'
+  | EUn n x, EUn n' y => Bool.eqb n n' && expr_eqb x y
+  | EParen x, EParen y => expr_eqb x y
+  | EStepInv x, EStepInv y => expr_eqb x y
+  | ECoalesce xs, ECoalesce ys =>
+      (fix go (l1 l2 : list expr) : bool :=
+         match l1, l2 with
+         | [], [] => true
+         | x :: r1, y :: r2 => expr_eqb x y && go r1 r2
+         | _, _ => false
+         end) xs ys
+  | ERemote n x, ERemote n' y => N.eqb n n' && expr_eqb x y
+  | _, _ => false
+  end.
+
+Record opt_case := mkOC {
+  oc_id : N; oc_before : expr;
+  oc_sort : expr; oc_merge : expr; oc_propagate : expr;   (* each optimizer alone *)
+  oc_default : expr }.                                     (* sort then merge *)
+
+Definition opt_case_ok (c : opt_case) : bool :=
+  expr_eqb (opt_sort (oc_before c)) (oc_sort c)
+  && expr_eqb (opt_merge (oc_before c)) (oc_merge c)
+  && expr_eqb (opt_propagate (oc_before c)) (oc_propagate c)
+  && expr_eqb (opt_merge (opt_sort (oc_before c))) (oc_default c).
+
+Definition opt_mismatches (cs : list opt_case) : list N :=
+  map oc_id (filter (fun c => negb (opt_case_ok c)) cs).
